@@ -477,7 +477,10 @@ func init() {
 	// general
 	add("equal", stdlib.EqualFunc, nil)
 	add("notequal", stdlib.NotEqualFunc, nil)
-	add("coalesce", stdlib.CoalesceFunc, nil)
+	add("coalesce", stdlib.CoalesceFunc, func(pos int, th bool) []cty.Value {
+		// the generic values plus nulls of several types (a null argument takes part in deciding the result type)
+		return cat(dynDict(th), []cty.Value{cty.NullVal(cty.String), cty.NullVal(cty.Number), cty.NullVal(cty.Bool), cty.NullVal(cty.List(cty.String)), cty.True, N(7)})
+	})
 	// json
 	add("jsonencode", stdlib.JSONEncodeFunc, func(pos int, th bool) []cty.Value {
 		return cat(dynDict(true), []cty.Value{cty.PositiveInfinity, parseNum("1e400"), parseNum("0.1"), cty.NumberUIntVal(1 << 63)})
